@@ -79,6 +79,7 @@ def run_asyncio_session(app_factory: Callable, config: Optional[Config], actions
     obs["alive"] = s.alive_tasks()
     obs["loop_exceptions"] = [str(c.get("message")) + ":" + repr(c.get("exception")) for c in loop.exceptions]
     obs["alive_before_cancel"] = not s.handler_done
+    loop.shutdown()
     return obs
 
 
